@@ -808,6 +808,10 @@ impl<'a> Ctx<'a> {
                 if !tj.exact {
                     continue;
                 }
+                // (through the JSON report only text survives unchanged)
+                if to.raw_lossy && !(eo.is_ascii() && ee.is_ascii()) {
+                    continue;
+                }
                 match &raw.exit {
                     ExitObs::Code { code: c } => {
                         if c != code {
